@@ -775,6 +775,32 @@ struct QExpression {
         }
     }
 
+    // The value of a whole number as a real: the two kinds share their bits, the kind says how to read them.
+    double wholeAsReal() const noexcept {
+        return ((Type == ExpressionType::NaturalNumber) ? double(Value.Number.Natural) : double(Value.Number.Integer));
+    }
+
+    // Both are whole numbers: below zero, zero or above zero as this is below, equal to or above right.
+    // A negative integer is below every natural, whatever the bits of the natural look like as an integer.
+    int compareWhole(const QExpression &right) const noexcept {
+        if ((Type == ExpressionType::IntegerNumber) && (Value.Number.Integer < 0)) {
+            if ((right.Type == ExpressionType::IntegerNumber) && (right.Value.Number.Integer < 0)) {
+                return ((Value.Number.Integer < right.Value.Number.Integer)
+                            ? -1
+                            : int(Value.Number.Integer > right.Value.Number.Integer));
+            }
+
+            return -1;
+        }
+
+        if ((right.Type == ExpressionType::IntegerNumber) && (right.Value.Number.Integer < 0)) {
+            return 1;
+        }
+
+        return ((Value.Number.Natural < right.Value.Number.Natural) ? -1
+                                                                      : int(Value.Number.Natural > right.Value.Number.Natural));
+    }
+
     bool operator>=(const QExpression &right) const noexcept {
         switch (Type) {
             case ExpressionType::NaturalNumber: {
@@ -782,7 +808,7 @@ struct QExpression {
                     return (double(Value.Number.Natural) >= right.Value.Number.Real);
                 }
 
-                return (Value.Number.Integer >= right.Value.Number.Integer);
+                return (compareWhole(right) >= 0);
             }
 
             case ExpressionType::IntegerNumber: {
@@ -790,12 +816,12 @@ struct QExpression {
                     return (double(Value.Number.Integer) >= right.Value.Number.Real);
                 }
 
-                return (Value.Number.Integer >= right.Value.Number.Integer);
+                return (compareWhole(right) >= 0);
             }
 
             case ExpressionType::RealNumber: {
                 if (right.Type != ExpressionType::RealNumber) {
-                    return (Value.Number.Real >= double(right.Value.Number.Integer));
+                    return (Value.Number.Real >= right.wholeAsReal());
                 }
             }
 
@@ -813,7 +839,7 @@ struct QExpression {
                     return (double(Value.Number.Natural) > right.Value.Number.Real);
                 }
 
-                return (Value.Number.Integer > right.Value.Number.Integer);
+                return (compareWhole(right) > 0);
             }
 
             case ExpressionType::IntegerNumber: {
@@ -821,12 +847,12 @@ struct QExpression {
                     return (double(Value.Number.Integer) > right.Value.Number.Real);
                 }
 
-                return (Value.Number.Integer > right.Value.Number.Integer);
+                return (compareWhole(right) > 0);
             }
 
             case ExpressionType::RealNumber: {
                 if (right.Type != ExpressionType::RealNumber) {
-                    return (Value.Number.Real > double(right.Value.Number.Integer));
+                    return (Value.Number.Real > right.wholeAsReal());
                 }
             }
 
@@ -844,7 +870,7 @@ struct QExpression {
                     return (double(Value.Number.Natural) <= right.Value.Number.Real);
                 }
 
-                return (Value.Number.Integer <= right.Value.Number.Integer);
+                return (compareWhole(right) <= 0);
             }
 
             case ExpressionType::IntegerNumber: {
@@ -852,12 +878,12 @@ struct QExpression {
                     return (double(Value.Number.Integer) <= right.Value.Number.Real);
                 }
 
-                return (Value.Number.Integer <= right.Value.Number.Integer);
+                return (compareWhole(right) <= 0);
             }
 
             case ExpressionType::RealNumber: {
                 if (right.Type != ExpressionType::RealNumber) {
-                    return (Value.Number.Real <= double(right.Value.Number.Integer));
+                    return (Value.Number.Real <= right.wholeAsReal());
                 }
             }
 
@@ -875,7 +901,7 @@ struct QExpression {
                     return (double(Value.Number.Natural) < right.Value.Number.Real);
                 }
 
-                return (Value.Number.Integer < right.Value.Number.Integer);
+                return (compareWhole(right) < 0);
             }
 
             case ExpressionType::IntegerNumber: {
@@ -883,12 +909,12 @@ struct QExpression {
                     return (double(Value.Number.Integer) < right.Value.Number.Real);
                 }
 
-                return (Value.Number.Integer < right.Value.Number.Integer);
+                return (compareWhole(right) < 0);
             }
 
             case ExpressionType::RealNumber: {
                 if (right.Type != ExpressionType::RealNumber) {
-                    return (Value.Number.Real < double(right.Value.Number.Integer));
+                    return (Value.Number.Real < right.wholeAsReal());
                 }
             }
 
@@ -906,7 +932,7 @@ struct QExpression {
                     return (double(Value.Number.Natural) == right.Value.Number.Real);
                 }
 
-                return (Value.Number.Integer == right.Value.Number.Integer);
+                return (compareWhole(right) == 0);
             }
 
             case ExpressionType::IntegerNumber: {
@@ -914,12 +940,12 @@ struct QExpression {
                     return (double(Value.Number.Integer) == right.Value.Number.Real);
                 }
 
-                return (Value.Number.Integer == right.Value.Number.Integer);
+                return (compareWhole(right) == 0);
             }
 
             case ExpressionType::RealNumber: {
                 if (right.Type != ExpressionType::RealNumber) {
-                    return (Value.Number.Real == double(right.Value.Number.Integer));
+                    return (Value.Number.Real == right.wholeAsReal());
                 }
             }
 
